@@ -60,7 +60,7 @@ TEXTS["C06"] = {
             "discharged for local pairs and open records by finalInterRecord_none_of_local / _of_open), a Group request between two hubs is booked like any other (C06_interhub_request_with_group_recorded). Block level (Proofs/TimeoutList.lean): what is stored under every timeout height after the bookkeeping of a whole block follows from the per-transaction actions alone, in whatever order the two Go maps are iterated "
             "(setTimeoutList_at): every request the block books for d is on that list afterwards, once, behind what was there (C06_block_books_requests), an id taken off is gone (C06_block_unbooks), a request and its receipt in one block net out (C06_block_request_and_receipt_net_out), other heights keep their lists (C06_block_other_heights_untouched). The timeout step of block h moves every listed id to BEGIN_ROLLBACK and touches no unlisted id "
             "(C06_fires_at_deadline, C06_not_listed_untouched). The end-to-end statement over histories is checked by model correspondence and the protocol monitor, one-to-one and (a quarter of the traffic) one-to-many: a group is listed as timed out only "
-            "in its deadline block and only if it has neither failed nor finished. Defects repaired by fix: commits (097cb155, 1d4711ef, the timeout-list quirks, ec8a63d5, 56c2160a, 37545315).",
+            "in its deadline block and only if it has neither failed nor finished. Defects repaired by fix: commits (097cb155, 1d4711ef, the timeout-list quirks, ec8a63d5, 56c2160a, 37545315). Over whole histories from a fresh chain (Props/C06b.lean, on the closed-finality invariant of C04 and the exact list-count lemmas of Proofs/ExecListedE): a request whose receipt was accepted never times out in any later block, a final record is on no list of any height for ever, an open record is listed only under the deadline its own record names, and contract transactions leave every other list alone (C06_answered_request_never_times_out, C06_final_is_unlisted_forever, C06_open_listed_only_under_its_deadline, C06_transactions_leave_the_lists_alone). Not proved, decided by correspondence + monitor only: that an unanswered request IS listed at exactly H+T in every history (needs a typing invariant of the timeout keys).",
     "note": TB,
     "technique": "Lean 4 theorems over the executable timeout-bookkeeping model + differential correspondence + protocol monitor",
 }
@@ -73,7 +73,7 @@ TEXTS["C14"] = {
             "The other direction (Proofs/ExecFees.lean): what leaves the sender reaches the admins up to the rounding of the split — a paid fee and the whole balance of a sender that cannot pay lose at most n-1 units, also when the sender is itself one of the admins "
             "(C14_paid_fee_reaches_admins, C14_unpayable_fee_reaches_admins), one transaction of any kind and outcome destroys at most n-1 units and a block at most (n-1) per transaction (C14_tx_loss_bound, C14_block_loss_bound). "
             "Two genuine defects found by this check (self-transfer created value; negative amount moved value backwards and below zero) were repaired by fix: commits and the model follows the repaired code. "
-            "Model is run against the real executor; monitor recomputes the sum of all balances after every block.",
+            "Model is run against the real executor; monitor recomputes the sum of all balances after every block. A second engine runs the documented grant (audit / governance admin registration and rebind) through real governance and checks it is paid exactly once per admin.",
     "note": TB + " EVM/XVM balance effects (wasm set_balance host call) and the admin-registration grant are outside the exec op language.",
     "technique": "Lean 4 theorems over the executable block-execution model (per-operation arithmetic, block-level and history-level conservation by induction) + differential correspondence + balance-sum monitor",
 }
@@ -127,7 +127,7 @@ TEXTS["C19"] = {
             "gap-free run of nonces held in its index from the pending nonce on — every nonce of the run is held, the first nonce behind it is not — and the pending nonce stored afterwards is exactly the nonce behind that run "
             "(C19_ready_is_maximal_gap_free_run, C19_pending_nonce_is_behind_the_ready_run, C19_ready_run_of_set_index). Bounded liveness "
             "(60 rounds of generate+commit) is decided by correspondence and a model-free monitor over GetTransaction of every hash ever given. Two defects found here were repaired by fix: commits "
-            "(eviction corrupted other accounts' nonce indices; GetTransaction returned a superseding tx); known finding: pending nonce stale after foreign commits.",
+            "(eviction corrupted other accounts' nonce indices; GetTransaction returned a superseding tx); known finding: pending nonce stale after foreign commits. A model-free rule counts the transactions marked batched against those in some batch (marked-batched-but-in-no-batch).",
     "note": TB,
     "technique": "Lean 4 theorems over the executable pool model + differential correspondence + no-loss monitor",
 }
@@ -146,7 +146,7 @@ TEXTS["C11"] = {
             "neither the chain-index batch nor the complete blockfile append is (C11_recover_iff), with the three unrecoverable classes characterised (C11_state_behind_chain_index, C11_blockfile_ahead, "
             "C11_chain_index_ahead) and the full clause refuted by a machine-checked counter-example (C11_always_recovers_false). The abstract recovery model is cross-checked in the driver against the concrete "
             "chain/blockfile/state model, which is run against the real stores: every admissible mask is assembled from before/after copies of the real LevelDB and blockfile directories at 6 (thorough: 11) heights "
-            "incl. journal-pruning ones, reopened with the real ledger.New and continued. The three bad classes are genuine defects recorded as known findings (no small safe repair: needs a commit record).",
+            "incl. journal-pruning ones, reopened with the real ledger.New and continued. The three bad classes are genuine defects recorded as known findings (no small safe repair: needs a commit record). After every crash image the ledger is reopened twice (a second reopen must change nothing), and state keys of raw bytes (non-UTF-8, 0xff-prefixed) are written and read back in every block.",
     "note": TB + " LevelDB batch atomicity and blockfile repair semantics are assumed (a table append is fully there or absent after repair); fsync ordering inside a store is not modelled.",
     "technique": "Lean 4 iff-characterisation over the crash-mask model + exhaustive crash injection on the real stores (correspondence)",
 }
@@ -253,7 +253,7 @@ TEXTS["C16"] = {
             "pause / unavailable are never available statuses (C16_logout_approved_is_forbidden), an approved freeze and the cascade `pause` leave the available set (C16_freeze_makes_unavailable), a rejection never makes an object usable that was not usable when the operation was proposed "
             "(C16_reject_never_makes_available: every reject transition returns to the remembered status, ends outside the available set, or starts inside it). On the real node requests between 6 services (and services registered during the history) "
             "are interleaved with real governance operations (also left open and concluded later, and overlapping service / appchain proposals) and restarts; a monitor applies the gating rule with the statuses read back before each request, checks every observed status change against the regenerated state machines "
-            "(paths of at most 3 transitions per block), that logged-out objects stay forbidden, and that a frozen / logged-out appchain has no usable service. One defect repaired (fix: a rejected logout of a frozen appchain unpaused its services).",
+            "(paths of at most 3 transitions per block), that logged-out objects stay forbidden, and that a frozen / logged-out appchain has no usable service. One defect repaired (fix: a rejected logout of a frozen appchain unpaused its services). After every concluded rule update the master rule is read back (rule master-rule-not-available).",
     "note": TB + " PARTIAL: the managers' bodies (bitxhub-core) are not modelled: that every status change goes through the state machine is checked on observed traces only; the exec model is compared until the first successful governance operation of a history; nodes, rules and dapps get no traffic.",
     "technique": "Lean 4 theorems (gating on the interchain model; table theorems over regenerated life-cycle state machines) + differential correspondence + gating / life-cycle / cascade monitor on real governance traffic",
 }
